@@ -427,6 +427,8 @@ class BatchResponse(AbstractResponse):
 
                 id, error = json_data.get('id'), json_data.get('error', UNSET)
                 if id is None and error is not UNSET:
+                    if 'result' in json_data:
+                        raise DeserializationError("'result' and 'error' fields are mutually exclusive")
                     return cls(error=error_cls.from_json(json_data['error']))
 
             if not isinstance(json_data, (list, tuple)):
